@@ -1,20 +1,31 @@
-#!/bin/sh
-# usage: tools/recheck_seeds.sh [name...]   -- regression run of the machinery against the seeded changes kept in /verif/seeded:
-# for each one, a scratch worktree of /repo HEAD gets the patch (if it still applies), the demo is run, and the quick check of
-# its property runs with VERIF_REPO pointing at the worktree (evidence goes to a scratch directory). Prints one line per seed.
-cd /verif
+#!/bin/bash
+# usage: tools/recheck_seeds.sh [jobs] [name...]   -- regression run of the machinery against the seeded changes kept in
+# /verif/seeded: for each one a scratch worktree of /repo HEAD gets the patch (plain, else three-way against the blobs it was
+# made from; "no longer applies" if neither works), the demo is run, and the quick check of its property runs with VERIF_REPO
+# pointing at the worktree (evidence goes to a scratch directory). Prints one line per seed; leaves /repo and /verif/evidence alone.
+jobs=${1:-4}; shift
+cd "$(dirname "$0")/.."
 names="$@"; [ -z "$names" ] && names=$(ls seeded)
-mkdir -p /tmp/recheck-evidence
-for name in $names; do
+mkdir -p work/seeds
+one() {
+  name=$1
   prop=$(/venv/bin/python -c "import json;print(json.load(open('/verif/seeded/$name/meta.json'))['property'])")
   wt=/tmp/recheck-$name
-  git -C /repo worktree add -q --detach $wt HEAD || { echo "$name: cannot create worktree"; continue; }
+  rm -rf $wt; git -C /repo worktree add -q --detach $wt HEAD || { echo "$name: cannot create worktree"; return; }
+  how=plain
   if ! git -C $wt apply /verif/seeded/$name/patch.diff 2>/dev/null; then
-    echo "$name ($prop): patch no longer applies to HEAD"; git -C /repo worktree remove --force $wt; continue
+    how=3way
+    if ! git -C $wt apply --3way /verif/seeded/$name/patch.diff > /dev/null 2>&1 || git -C $wt diff --name-only --diff-filter=U | grep -q .; then
+      echo "$name ($prop): patch no longer applies to HEAD"; git -C /repo worktree remove --force $wt; return
+    fi
   fi
-  ( cd $wt && /venv/bin/python /verif/seeded/$name/demo.py $wt > /dev/null 2>&1 ); demo=$?
-  VERIF_REPO=$wt VERIF_EVIDENCE_DIR=/tmp/recheck-evidence /verif/check $prop quick > /tmp/recheck-$name.out 2>&1; rc=$?
-  echo "$name ($prop): demo rc=$demo; check exit=$rc, $(grep -c '^VIOLATION' /tmp/recheck-$name.out) VIOLATION lines"
-  git -C /repo worktree remove --force $wt
-done
-rm -rf /tmp/recheck-evidence
+  ( cd $wt && timeout 300 /venv/bin/python /verif/seeded/$name/demo.py $wt > /dev/null 2>&1 ); demo=$?
+  mkdir -p work/seeds/ev-$name
+  VERIF_REPO=$wt VERIF_EVIDENCE_DIR=$PWD/work/seeds/ev-$name ./check $prop quick > work/seeds/$name.out 2>&1; rc=$?
+  echo "$name ($prop, $how): demo rc=$demo; check exit=$rc, $(grep -c '^VIOLATION' work/seeds/$name.out) VIOLATION lines"
+  rm -rf work/seeds/ev-$name
+  git -C /repo worktree remove --force $wt > /dev/null 2>&1
+}
+export -f one
+echo $names | tr ' ' '\n' | xargs -P "$jobs" -L 1 bash -c 'one $0'
+git -C /repo worktree prune
